@@ -1,10 +1,10 @@
 #!/bin/bash
-# usage: tools/seedverify.sh <PROP> <k>   — confirms a candidate seeded change from /tmp/seed/<PROP>/out in a scratch worktree
+# usage: tools/seedverify.sh <PROP> <k> [subdir [number]]   — confirms a candidate seeded change from /tmp/seed/<PROP>/out in a scratch worktree
 # (existing suite passes with the change; demo fails with it and passes without) and stores it under /verif/seeded/<PROP>-<k>/
 set -u
-P=$1; K=$2
+P=$1; K=$2; SUB=${3:-out}; N=${4:-$K}
 export GOFLAGS=-mod=mod GOPROXY=off GOSUMDB=off GOTOOLCHAIN=local
-SRC=/tmp/seed/$P/out
+SRC=/tmp/seed/$P/$SUB
 WT=/tmp/seedchk-$P-$K
 git -C /repo worktree remove --force $WT 2>/dev/null
 git -C /repo worktree add -q --detach $WT HEAD || exit 2
@@ -18,11 +18,11 @@ cp $SRC/demo${K}_test.go zz_demo_test.go
 if go test -vet=off -count=1 -run 'Demo|C[0-9][0-9]' . >/tmp/seedchk-$P-$K.with 2>&1; then res "demo PASSES with the change (no demonstration)" 3; fi
 git checkout -q -- . 
 if ! go test -vet=off -count=1 -run 'Demo|C[0-9][0-9]' . >/tmp/seedchk-$P-$K.without 2>&1; then tail -5 /tmp/seedchk-$P-$K.without; res "demo FAILS without the change" 3; fi
-D=/verif/seeded/$P-$K
+D=/verif/seeded/$P-$N
 mkdir -p $D
 cp $SRC/patch$K.diff $D/patch.diff
 cp $SRC/demo${K}_test.go $D/demo_test.go
-python3 - "$P" "$K" "$SRC/meta$K.txt" "$D/meta.json" <<'PY'
+python3 - "$P" "$N" "$SRC/meta$K.txt" "$D/meta.json" <<'PY'
 import json,sys
 p,k,src,dst=sys.argv[1:]
 meta=open(src).read()
